@@ -82,6 +82,7 @@ Definition chk_C12_peer (peer : bytes) (c o : value) : bool :=
 Definition chk_C12 (c o : value) : bool :=
   match c with
   | VL [a1; a2; a3; a4; a5; a6; a7; VB peer] => chk_C12_peer peer (VL [a1; a2; a3; a4; a5; a6; a7]) o
+  | VL [a1; a2; a3; a4; a5; a6; a7; VB peer; VI _] => chk_C12_peer peer (VL [a1; a2; a3; a4; a5; a6; a7]) o
   | _ => chk_C12_peer PEER c o
   end.
 
